@@ -22,6 +22,8 @@ type Engine struct {
 	baseSorts         map[string]string
 	strictAppendFrame bool
 	unroll            int
+	mu                sync.Mutex
+	axiomErrs         map[string]string
 	workDir           string
 	tier              string
 	timeoutS          int
@@ -256,12 +258,35 @@ func (e *Engine) verifyLemma(l *LemmaRef) *FnResult {
 
 // axiomsFor returns the global axioms (from `axiom` directives) as assertions.
 func (e *Engine) axiomAsserts(c *FnCtx) []string {
+	if c.axiomsDone {
+		return c.axiomCache
+	}
+	c.axiomsDone = true
 	var out []string
 	for _, a := range e.prog.Axioms {
+		if a.Pkg != c.pkg {
+			dep := false
+			if c.pkg.lp != nil {
+				for _, imp := range c.pkg.lp.Imports {
+					if imp.PkgPath == a.Pkg.Path {
+						dep = true
+					}
+				}
+			}
+			if !dep {
+				continue
+			}
+		}
 		func() {
 			defer func() {
 				if r := recover(); r != nil {
-					if _, ok := r.(unsupported); ok {
+					if u, ok := r.(unsupported); ok {
+						e.mu.Lock()
+						if e.axiomErrs == nil {
+							e.axiomErrs = map[string]string{}
+						}
+						e.axiomErrs[a.C.Label] = u.msg
+						e.mu.Unlock()
 						return
 					}
 					panic(r)
@@ -272,6 +297,7 @@ func (e *Engine) axiomAsserts(c *FnCtx) []string {
 			out = append(out, "(assert "+g+")")
 		}()
 	}
+	c.axiomCache = out
 	return out
 }
 
